@@ -6,15 +6,26 @@ that the potentials use.
 namespace BV.Stream
 open BV.Bits
 
-/-- fuel that suffices for one call (`n` bytes offered, answers of at most `B` bits,
-`M = (190 + B) / 8` or more) -/
+/-- the per-call bound on the staging buffer: what it is now, or what `get_brotli_storage` can be asked
+for while `n` more bytes are offered (`2 * span + 527`, `span ≤ unflushed bytes + n`) — a function of
+the state and the call alone -/
+def callCap (s : St) (n : Nat) : Nat := max s.storageSize (2 * (s.inputPos + n - s.lastFlushPos) + 527 + 2 * n)
+
+theorem cap_callCap (s : St) (input : Bytes) (cap : Nat) :
+    Cap (callCap s input.length) s { input := input, availIn := input.length, availOut := cap } := by
+  unfold Cap callCap
+  refine ⟨Nat.le_max_left _ _, ?_, ?_⟩
+  · exact Nat.le_trans (by show 2 * (s.inputPos + input.length - s.lastFlushPos) + 527 ≤ 2 * (s.inputPos + input.length - s.lastFlushPos) + 527 + 2 * input.length; omega) (Nat.le_max_right _ _)
+  · exact Nat.le_trans (by show 2 * input.length + 527 ≤ 2 * (s.inputPos + input.length - s.lastFlushPos) + 527 + 2 * input.length; omega) (Nat.le_max_right _ _)
+
+/-- fuel that suffices for one call (`n` bytes offered, `M` a bound on the staging buffer during the
+call: `Cap M`, e.g. `callCap s n`) -/
 def callPot (M : Nat) (s : St) (n : Nat) : Nat :=
   (2 * n + 2) * (M + 8) + 17 * n + s.pending.length + 16
 
 theorem padB_le (s : St) : padB s ≤ 4 := by unfold padB; split <;> omega
 
-theorem slowLoop_lbb {o : Oracle} {op B M : Nat} {c0 : SState} {n total : Nat}
-    (hB : OracleBounded o B) (hM : (14 + 176 + B) / 8 ≤ M) (hop : op ≤ 2) :
+theorem slowLoop_lbb {o : Oracle} {op : Nat} {c0 : SState} {n total : Nat} (hop : op ≤ 2) :
     ∀ fuel s io s' io' r, SlowInv op c0 n total s io → s.lastBytesBits ≤ 14 →
       slowLoop o op fuel s io = .ok (s', io', r) → s'.lastBytesBits ≤ 14 := by
   intro fuel
@@ -34,7 +45,7 @@ theorem slowLoop_lbb {o : Oracle} {op B M : Nat} {c0 : SState} {n total : Nat}
         rcases hP.st with h1 | ⟨_, h2, _⟩
         · exact hP.nonproc (by rw [← h1]; exact hne)
         · exact h2
-      obtain ⟨_, d2⟩ := slowStep_decreases hP.inv (by rw [hP.sum]; exact hP.nowrap) hnp hB hM hl hop hs
+      obtain ⟨_, _, d2⟩ := slowStep_decreases (M := 0) hP.inv (by rw [hP.sum]; exact hP.nowrap) hnp hl hop hs
       exact ih _ _ _ _ _ (slowInv_step hP hs).2 d2 h
     · rename_i s1 io1 hs
       simp only [Out.ok.injEq, Prod.mk.injEq] at h
@@ -72,9 +83,11 @@ theorem mul_mono_aux {a b X : Nat} (h : a ≤ b) : a * X ≤ b * X := Nat.mul_le
 
 /-- **every call terminates**: with at least `callPot` fuel, `compress_stream` returns a value or
 a modelled panic — its loops cannot spin.  Hypotheses: the state invariant, a carry of at most 14
-bits (true initially and preserved, `compressStream_lbb`), and a bound on the oracle's answers. -/
-theorem compressStream_terminates {o : Oracle} {B M fuel op cap : Nat} {input : Bytes} {s : St}
-    (hB : OracleBounded o B) (hM : (14 + 176 + B) / 8 ≤ M)
+bits (true initially and preserved, `compressStream_lbb`), and `Cap M`: `M` bounds the staging buffer
+as it is and as this call can grow it.  NO hypothesis on the oracle: what an invocation leaves pending
+is bounded by the machine's own `storage[1 + (storage_ix >> 3)]` checks. -/
+theorem compressStream_terminates {o : Oracle} {M fuel op cap : Nat} {input : Bytes} {s : St}
+    (hC : Cap M s { input := input, availIn := input.length, availOut := cap })
     (hop : op ≤ 3) (hI : Inv s) (hw : s.inputPos + input.length < two64) (hl : s.lastBytesBits ≤ 14)
     (hfuel : callPot M s input.length < fuel) :
     compressStream o fuel s op input cap ≠ .fuel := by
@@ -135,7 +148,17 @@ theorem compressStream_terminates {o : Oracle} {B M fuel op cap : Nat} {input : 
                 · exact absurd ⟨by rw [← u7]; exact hrm, Or.inl hne⟩ hg
               exact ⟨hIu, hst, hIu.mdLe hrm, hav, Nat.le_refl _⟩
           obtain ⟨m1, m2, m3, _, _⟩ := mdEnter_fields (updateSizeHint s 0) input.length
-          refine mdLoop_terminates hB hM fuel _ _ hP (by rw [m3, u14]; exact hl) ?_
+          have hMC : MCap M (mdEnter (updateSizeHint s 0) input.length) := by
+            have h0 := mcap_of_cap hC
+            have e1 : (mdEnter (updateSizeHint s 0) input.length).storageSize = s.storageSize := by
+              unfold mdEnter updateSizeHint; split <;> split <;> rfl
+            have e2 : (mdEnter (updateSizeHint s 0) input.length).inputPos = s.inputPos := by
+              unfold mdEnter updateSizeHint; split <;> split <;> rfl
+            have e3 : (mdEnter (updateSizeHint s 0) input.length).lastFlushPos = s.lastFlushPos := by
+              unfold mdEnter updateSizeHint; split <;> split <;> rfl
+            unfold MCap at h0 ⊢
+            rw [e1, e2, e3]; exact h0
+          refine mdLoop_terminates fuel _ _ hP (by rw [m3, u14]; exact hl) hMC ?_
           show mdPot M (mdEnter (updateSizeHint s 0) input.length) < fuel
           have hb := mdPot_le M (mdEnter (updateSizeHint s 0) input.length)
           have hrm : (mdEnter (updateSizeHint s 0) input.length).remainingMetadata = input.length := by
@@ -172,7 +195,7 @@ theorem compressStream_terminates {o : Oracle} {B M fuel op cap : Nat} {input : 
           have hb := fastPot_le M s { input := input, availIn := input.length, availOut := cap }
           simp only at hb
           have h2 : (input.length + 1) * (M + 8) ≤ (2 * input.length + 2) * (M + 8) := Nat.mul_le_mul_right _ (by omega)
-          have := fastLoop_terminates (o := o) (op := op) hB hM hop2 fuel s { input := input, availIn := input.length, availOut := cap } hl (by omega)
+          have := fastLoop_terminates (o := o) (op := op) (M := M) hop2 fuel s { input := input, availIn := input.length, availOut := cap } hl hC (by omega)
           split
           · simp
           · simp
@@ -180,13 +203,12 @@ theorem compressStream_terminates {o : Oracle} {B M fuel op cap : Nat} {input : 
         · have hb := slowPot_le op M s { input := input, availIn := input.length, availOut := cap }
           simp only at hb
           have h2 : (2 * input.length + 1) * (M + 8) ≤ (2 * input.length + 2) * (M + 8) := Nat.mul_le_mul_right _ (by omega)
-          exact slowLoop_terminates (c0 := s.streamState) (n := input.length) (total := s.inputPos + input.length) hB hM hop2 fuel s _
-            ⟨hI, rfl, hw, hrm, Nat.le_refl _, hacc, Or.inl rfl⟩ hl (by omega)
+          exact slowLoop_terminates (c0 := s.streamState) (n := input.length) (total := s.inputPos + input.length) hop2 fuel s _
+            ⟨hI, rfl, hw, hrm, Nat.le_refl _, hacc, Or.inl rfl⟩ hl hC (by omega)
 
 /-! ### the carry stays at most 14 bits across calls -/
 
-theorem fastLoop_lbb {o : Oracle} {op B M : Nat}
-    (hB : OracleBounded o B) (hM : (14 + 176 + B) / 8 ≤ M) (hop : op ≤ 2) :
+theorem fastLoop_lbb {o : Oracle} {op : Nat} (hop : op ≤ 2) :
     ∀ fuel s io s' io', s.lastBytesBits ≤ 14 → fastLoop o op fuel s io = .ok (s', io') → s'.lastBytesBits ≤ 14 := by
   intro fuel
   induction fuel with
@@ -198,14 +220,14 @@ theorem fastLoop_lbb {o : Oracle} {op B M : Nat}
     · simp at h
     · simp at h
     · rename_i s1 io1 hs
-      exact ih _ _ _ _ (fastStep_decreases hB hM hl hop hs).2 h
+      exact ih _ _ _ _ (fastStep_decreases (M := 0) hl hop hs).2.2 h
     · rename_i s1 io1 hs
       simp only [Out.ok.injEq, Prod.mk.injEq] at h
       obtain ⟨rfl, rfl⟩ := h
       obtain ⟨e1, _, _⟩ := fastStep_brk hs
       rw [e1]; exact hl
 
-theorem mdLoop_lbb {o : Oracle} {n B M : Nat} (hB : OracleBounded o B) (hM : (14 + 176 + B) / 8 ≤ M) :
+theorem mdLoop_lbb {o : Oracle} {n : Nat} :
     ∀ fuel s io s' io' r, MdInv n s io → s.lastBytesBits ≤ 14 →
       processMetadataLoop o fuel s io = .ok (s', io', r) → s'.lastBytesBits ≤ 14 := by
   intro fuel
@@ -220,7 +242,7 @@ theorem mdLoop_lbb {o : Oracle} {n B M : Nat} (hB : OracleBounded o B) (hM : (14
     · rename_i s1 io1 hs
       exact absurd rfl (mdStep_spec hP hs).1
     · rename_i s1 io1 hs
-      obtain ⟨_, d2⟩ := mdStep_decreases hP hB hM hl hs
+      obtain ⟨_, d2⟩ := mdStep_decreases (M := 0) hP hl hs
       rcases (mdStep_spec hP hs).2 with h1 | ⟨h1, _⟩
       · exact ih _ _ _ _ _ h1 d2 h
       · cases h1
@@ -276,8 +298,7 @@ theorem ensureInitialized_lbb (s : St) (h : s.isInitialized = false) : (ensureIn
   exact encodeWindowBits_bits _ _
 
 /-- the carry never exceeds 14 bits: preserved by every call -/
-theorem compressStream_lbb {o : Oracle} {B M fuel op cap : Nat} {input : Bytes} {s s' : St} {io' : Io} {r : Bool}
-    (hB : OracleBounded o B) (hM : (14 + 176 + B) / 8 ≤ M)
+theorem compressStream_lbb {o : Oracle} {fuel op cap : Nat} {input : Bytes} {s s' : St} {io' : Io} {r : Bool}
     (hop : op ≤ 3) (hI : Inv s) (hw : s.inputPos + input.length < two64) (hl : s.lastBytesBits ≤ 14)
     (h : compressStream o fuel s op input cap = .ok (s', io', r)) : s'.lastBytesBits ≤ 14 := by
   cases r
@@ -341,7 +362,7 @@ theorem compressStream_lbb {o : Oracle} {B M fuel op cap : Nat} {input : Bytes} 
                   · exact absurd ⟨by rw [← u7]; exact hrm, Or.inl hne⟩ hg
                 exact ⟨hIu, hst, hIu.mdLe hrm, hav, Nat.le_refl _⟩
             obtain ⟨_, _, m3, _, _⟩ := mdEnter_fields (updateSizeHint s 0) input.length
-            exact mdLoop_lbb hB hM fuel _ _ _ _ _ hP (by rw [m3, u14]; exact hl) h
+            exact mdLoop_lbb fuel _ _ _ _ _ hP (by rw [m3, u14]; exact hl) h
       · rename_i hop3
         have hop2 : op ≤ 2 := by omega
         have hrm : s.remainingMetadata = u32Max := by
@@ -368,10 +389,10 @@ theorem compressStream_lbb {o : Oracle} {B M fuel op cap : Nat} {input : Bytes} 
               simp only [Out.ok.injEq, Prod.mk.injEq] at h
               obtain ⟨rfl, rfl, _⟩ := h
               rw [(checkFlushComplete_frame s1).2.2.2.2.2.2.2.2.2.1]
-              exact fastLoop_lbb hB hM hop2 fuel _ _ _ _ hl hl1
+              exact fastLoop_lbb hop2 fuel _ _ _ _ hl hl1
             · simp at h
             · simp at h
-          · exact slowLoop_lbb (c0 := s.streamState) (n := input.length) (total := s.inputPos + input.length) hB hM hop2 fuel s _ _ _ _
+          · exact slowLoop_lbb (c0 := s.streamState) (n := input.length) (total := s.inputPos + input.length) hop2 fuel s _ _ _ _
               ⟨hI, rfl, hw, hrm, Nat.le_refl _, haccp, Or.inl rfl⟩ hl h
 
 end BV.Stream
